@@ -212,7 +212,7 @@ fn framed_write_many(ps: Vec<Packet>) -> Result<Vec<Message>, String> {
 
 /// Back-pressure: the server does not read until the client's writes stall (the socket buffers are
 /// full); then it drains.  Returns (packets whose write returned Ok, binary messages the server got).
-fn back_pressure(compressed: bool) -> Result<(Vec<Vec<u8>>, Vec<Vec<u8>>, usize), String> {
+fn back_pressure(compressed: bool, keepalive: bool) -> Result<(Vec<Vec<u8>>, Vec<Vec<u8>>, usize), String> {
     let rt = tokio::runtime::Builder::new_current_thread().enable_io().enable_time().build().map_err(|e| e.to_string())?;
     rt.block_on(async move {
         let std_listener = LISTENER.with(|l| l.try_clone()).map_err(|e| e.to_string())?;
@@ -222,6 +222,10 @@ fn back_pressure(compressed: bool) -> Result<(Vec<Vec<u8>>, Vec<Vec<u8>>, usize)
         let server = tokio::spawn(async move {
             let (stream, _) = listener.accept().await.map_err(|e| e.to_string())?;
             let mut ws = tokio_tungstenite::accept_async(stream).await.map_err(|e| e.to_string())?;
+            if keepalive {
+                // a keep-alive is waiting for the client while its own writes are blocked
+                ws.send(Message::Binary(if compressed { vec![1, 3, 0, 0] } else { vec![4, 3, 0, 0] }.into())).await.map_err(|e| e.to_string())?;
+            }
             let _ = go_rx.await;
             let mut got: Vec<Vec<u8>> = vec![];
             loop {
@@ -230,7 +234,7 @@ fn back_pressure(compressed: bool) -> Result<(Vec<Vec<u8>>, Vec<Vec<u8>>, usize)
                     Err(_) => break,
                     Ok(None) | Ok(Some(Err(_))) => break,
                     Ok(Some(Ok(Message::Binary(b)))) => {
-                        let last = b.windows(8).any(|w| w == b"marker 2");
+                        let last = b.windows(8).any(|w| w == if keepalive { &b"marker 4"[..] } else { &b"marker 2"[..] });
                         got.push(b.to_vec());
                         if last {
                             // a short grace period for anything that should not follow
@@ -264,6 +268,11 @@ fn back_pressure(compressed: bool) -> Result<(Vec<Vec<u8>>, Vec<Vec<u8>>, usize)
             }
         }
         let stalled_at = written.len();
+        if keepalive {
+            // the application polls for input while blocked: the keep-alive is taken, its reply cannot leave,
+            // and the read is given up (a select! against a timer)
+            let _ = tokio::time::timeout(Duration::from_millis(400), framed.read()).await;
+        }
         let _ = go_tx.send(());
         // the peer drains; the application goes on writing (what had been accepted into the sink while the
         // socket was full leaves with the next writes - nothing flushes it for an idle application, which
@@ -278,6 +287,18 @@ fn back_pressure(compressed: bool) -> Result<(Vec<Vec<u8>>, Vec<Vec<u8>>, usize)
                 Ok(Ok(())) => written.push(frame),
             }
             tokio::time::sleep(Duration::from_millis(100)).await;
+        }
+        if keepalive {
+            // the keep-alive is handed over now at the latest
+            let _ = tokio::time::timeout(Duration::from_secs(5), framed.read()).await;
+            for n in 3..5u32 {
+                let p = Packet::Mtc(insim::insim::Mtc { text: format!("marker {n}"), ..Default::default() });
+                let frame = codec.encode(&p).map_err(|e| e.to_string())?.to_vec();
+                match tokio::time::timeout(Duration::from_secs(5), framed.write(p)).await {
+                    Ok(Ok(())) => written.push(frame),
+                    other => return Err(format!("marker write #{n}: {other:?}")),
+                }
+            }
         }
         // keep the connection alive while the server drains
         let got = tokio::time::timeout(Duration::from_secs(60), server).await.map_err(|_| "server did not finish".to_string())?.map_err(|e| e.to_string())??;
@@ -557,15 +578,26 @@ pub fn sites(tier: Tier) -> Vec<Site> {
         }));
     }
     // back-pressure: the peer does not read, the socket buffers fill, writes stall, then the peer drains
-    sites.push(Site::new("write-back-pressure", 2, "numbered 136-byte packets written until a write stalls against a peer that does not read (both modes); the peer then drains: every packet whose write returned is there exactly once, in order, one per binary message",
+    sites.push(Site::new("write-back-pressure", 4, "numbered 136-byte packets written until a write stalls against a peer that does not read (both modes; with and without a keep-alive that arrives while the writes are blocked and whose read is given up); the peer then drains: every packet whose write returned is there exactly once, in order, one per binary message, and the keep-alive is answered by exactly one message of its own",
         |i, acc| {
-            let compressed = i == 0;
+            let compressed = i % 2 == 0;
+            let keepalive = i >= 2;
             acc.eval();
-            let replay = json!({"site": "write-back-pressure", "index": i, "mode": if compressed { "compressed" } else { "uncompressed" }});
-            match guard(|| back_pressure(compressed)) {
+            let replay = json!({"site": "write-back-pressure", "index": i, "mode": if compressed { "compressed" } else { "uncompressed" }, "keepalive": keepalive});
+            match guard(|| back_pressure(compressed, keepalive)) {
                 Err(p) => acc.violate(i, "C20|write|panic".into(), p, replay),
                 Ok(Err(e)) => { eprintln!("MACHINERY: websocket back-pressure harness failed: {e}"); std::process::exit(4); },
                 Ok(Ok((written, mut got, stalled_at))) => {
+                    if keepalive {
+                        // exactly one message that is the reply and nothing but the reply
+                        let pong: Vec<u8> = if compressed { vec![1, 3, 0, 0] } else { vec![4, 3, 0, 0] };
+                        let n_pong = got.iter().filter(|m| **m == pong).count();
+                        if n_pong != 1 {
+                            acc.violate(i, "C20|write|keep-alive-reply-not-a-message-of-its-own".into(), format!("{n_pong} binary message(s) hold exactly the keep-alive reply (1 expected); messages shorter than 16 bytes: {:?}", got.iter().filter(|m| m.len() < 16).map(|m| hex(m)).collect::<Vec<_>>()), replay);
+                            return;
+                        }
+                        got.retain(|m| *m != pong);
+                    }
                     // the write that stalled (and was given up) may have got its packet into the sink: it
                     // then sits at position `stalled_at`, once; take it out before comparing
                     if got.len() == written.len() + 1 && got.get(stalled_at) != written.get(stalled_at) {
